@@ -25,6 +25,10 @@ def run(rep, idx, tier):
     from .c02 import query_coherence
     query_coherence(rep, idx, rule="C06.1", only=("window_patterns", "windows", "get", "overlaps", "items"))
     glue.pairwise_reductions(rep, "C06.3", idx, "csr/bus.py")
+    # the map a CSR interface accepts has exactly the bus geometry (the decoder forwards self.bus.addr[:sub.addr_width] on that basis)
+    rep.require("C06.5", 5)
+    from .c01 import setters
+    setters(rep, idx, rule="C06.5", only="csr/bus")
     if not require_supported(rep, "C06.1", c):
         return
     r = glue.decoder_roles(rep, "C06.1", c, "self.bus.addr")
